@@ -515,6 +515,16 @@ def replay_dir(ctx, tla, cfg, is_reset):
     return ctx.finish()
 
 
+def require_ops(ctx, scripts, what):
+    """Vacuity guard for spec->implementation replay: TLC behaviours must translate into operations of the driver.
+    (An action whose transitions TLC labels 'Next' is invisible to the translation and yields empty scripts.)"""
+    nops = [sum(len(v) for v in s["procs"].values()) for s in scripts]
+    withops = sum(1 for n in nops if n > 0)
+    ctx.extra.setdefault("tlc_scripts", []).append({"what": what, "scripts": len(scripts), "with_operations": withops, "operations": sum(nops)})
+    if not scripts or withops * 2 < len(scripts):
+        raise Infra("%s: only %d of %d TLC-derived scripts contain any operation: the behaviour->script translation is broken (vacuous replay)" % (what, withops, len(scripts)))
+
+
 def simulate_behaviours(tla, cfg, wd, num, depth, seed_, timeout=600, init_vars=()):
     """Run TLC in simulation mode and return the behaviours as lists of action labels ('A1(a1)', ...).
     With init_vars, each behaviour is (labels, {var: value}) for the initial state."""
